@@ -326,3 +326,32 @@ func randomPartitions(n int, planted []int, r *vrt.Rand) map[string][]int {
 }
 
 var gammas = []float64{0.5, 1, 2, 4}
+
+// genCliqueRing: k cliques of size sz joined in a ring by single edges; pairs
+// of neighbouring cliques are joined by extra edges so that Louvain finds at
+// least two rounds of merges (cliques, then groups of cliques).
+func genCliqueRing(k, sz int, dir bool, r *vrt.Rand) (n int, e [][2]int) {
+	add := func(i, j int) {
+		e = append(e, [2]int{i, j})
+		if dir && r.Chance(0.8) {
+			e = append(e, [2]int{j, i})
+		}
+	}
+	for c := 0; c < k; c++ {
+		for i := 0; i < sz; i++ {
+			for j := i + 1; j < sz; j++ {
+				add(c*sz+i, c*sz+j)
+			}
+		}
+		if k > 1 {
+			d := (c + 1) % k
+			if d != c && !(k == 2 && c == 1) {
+				add(c*sz, d*sz+sz-1)
+				if c%2 == 0 && sz > 1 {
+					add(c*sz+1, d*sz)
+				}
+			}
+		}
+	}
+	return k * sz, e
+}
